@@ -44,7 +44,7 @@
 use futures::channel::oneshot;
 use futures::FutureExt;
 use hx_common::{parse_cli, quiet_panics, sched, Cmd, Rng};
-use leptos_server::{ArcOnceResource, ArcResource, OnceResource, Resource};
+use leptos_server::{ArcLocalResource, ArcOnceResource, ArcResource, LocalResource, OnceResource, Resource};
 use reactive_graph::computed::suspense::SuspenseContext;
 use reactive_graph::computed::{ArcAsyncDerived, ArcMemo, AsyncDerived};
 use reactive_graph::owner::provide_context;
@@ -143,8 +143,13 @@ enum Kind {
     ResBlocking,
     Once,
     OnceArc,
+    Local,
+    LocalArc,
 }
 impl Kind {
+    fn is_local(self) -> bool {
+        matches!(self, Kind::Local | Kind::LocalArc)
+    }
     fn is_res(self) -> bool {
         matches!(self, Kind::Res | Kind::ResArc | Kind::ResBlocking)
     }
@@ -169,6 +174,8 @@ enum Dv {
     RR(Resource<u32>),
     OA(ArcOnceResource<u32>),
     OR(OnceResource<u32>),
+    LA(ArcLocalResource<u32>),
+    LR(LocalResource<u32>),
 }
 /// the same expression for every flavour of handle
 macro_rules! each {
@@ -181,6 +188,8 @@ macro_rules! each {
             Dv::RR($d) => $e,
             Dv::OA($d) => $e,
             Dv::OR($d) => $e,
+            Dv::LA($d) => $e,
+            Dv::LR($d) => $e,
         }
     };
 }
@@ -209,6 +218,15 @@ impl Dv {
             _ => unreachable!(),
         }
     }
+    /// the real `leptos_server` local resource: the fetcher reads the sources (tracked); every fetch waits
+    /// one executor tick (`Executor::tick()`) before it awaits the fetcher's future
+    fn new_local(kind: Kind, f: impl Fn() -> Fut + Send + Sync + 'static) -> Dv {
+        match kind {
+            Kind::LocalArc => Dv::LA(ArcLocalResource::new(f)),
+            Kind::Local => Dv::LR(LocalResource::new(f)),
+            _ => unreachable!(),
+        }
+    }
     /// the real `leptos_server` once-resource: one future, started on the inputs given
     fn new_once(kind: Kind, sh: Sh, inputs: Vec<u32>) -> Dv {
         let fut = start_fetch(&sh, inputs);
@@ -232,7 +250,7 @@ impl Dv {
             Dv::L(d) => d.set(Some(v)),
             Dv::RA(d) => d.set(Some(v)),
             Dv::RR(d) => d.set(Some(v)),
-            Dv::OA(_) | Dv::OR(_) => unreachable!(),
+            Dv::OA(_) | Dv::OR(_) | Dv::LA(_) | Dv::LR(_) => unreachable!(),
         }
     }
     fn refetch(&self) {
@@ -242,12 +260,26 @@ impl Dv {
             Dv::L(d) => d.mark_dirty(),
             Dv::RA(d) => d.refetch(),
             Dv::RR(d) => d.refetch(),
+            Dv::LA(d) => d.refetch(),
+            Dv::LR(d) => d.refetch(),
             Dv::OA(_) | Dv::OR(_) => unreachable!(),
         }
     }
     /// the loading indication as the public API shows it: `ready()` does not resolve while loading
     fn loading(&self) -> bool {
-        each!(self, d => d.ready().now_or_never().is_none())
+        use std::future::IntoFuture;
+        match self {
+            // no `ready()` on a local resource: its `.await` resolves at once exactly when it is not loading
+            Dv::LA(d) => d.clone().into_future().now_or_never().is_none(),
+            Dv::LR(d) => d.into_future().now_or_never().is_none(),
+            Dv::A(d) => d.ready().now_or_never().is_none(),
+            Dv::R(d) => d.ready().now_or_never().is_none(),
+            Dv::L(d) => d.ready().now_or_never().is_none(),
+            Dv::RA(d) => d.ready().now_or_never().is_none(),
+            Dv::RR(d) => d.ready().now_or_never().is_none(),
+            Dv::OA(d) => d.ready().now_or_never().is_none(),
+            Dv::OR(d) => d.ready().now_or_never().is_none(),
+        }
     }
     async fn await_value(self, how: char) -> u32 {
         match (self, how) {
@@ -258,8 +290,20 @@ impl Dv {
             (Dv::RR(d), 'v') => d.await,
             (Dv::OA(d), 'v') => d.await,
             (Dv::OR(d), 'v') => d.await,
+            (Dv::LA(d), 'v') => d.await,
+            (Dv::LR(d), 'v') => d.await,
+            (Dv::LA(_), _) | (Dv::LR(_), _) => unreachable!(),
             (this, 'r') => {
-                each!(&this, d => d.ready().await);
+                match &this {
+                    Dv::A(d) => d.ready().await,
+                    Dv::R(d) => d.ready().await,
+                    Dv::L(d) => d.ready().await,
+                    Dv::RA(d) => d.ready().await,
+                    Dv::RR(d) => d.ready().await,
+                    Dv::OA(d) => d.ready().await,
+                    Dv::OR(d) => d.ready().await,
+                    Dv::LA(_) | Dv::LR(_) => unreachable!(),
+                }
                 this.get_untracked().unwrap_or(u32::MAX)
             }
             (Dv::A(d), _) => *d.by_ref().await,
@@ -396,6 +440,9 @@ impl Live {
         } else if kind.is_once() {
             self.tags.insert("once-resource");
             Dv::new_once(kind, self.sh.clone(), srcs.clone())
+        } else if kind.is_local() {
+            self.tags.insert("local-resource");
+            Dv::new_local(kind, fetcher(self.sh.clone(), self.srcs.clone(), None))
         } else {
             Dv::new(kind, init, fetcher(self.sh.clone(), self.srcs.clone(), via))
         };
@@ -443,16 +490,24 @@ impl Live {
         });
     }
 
+    /// spawn index of the derived's own task: a local resource's first fetch spawns its tick task before it
+    fn d_id(&self) -> usize {
+        if self.kind.is_local() { 1 } else { 0 }
+    }
+
     fn task_name(&self, id: usize) -> String {
-        if id == 0 {
+        if id == self.d_id() {
             "d".into()
+        } else if id < self.d_id() {
+            "t0".into()
         } else if id < self.aw_base {
             "e".into()
         } else {
             let k = id - self.aw_base;
             let kind = self.spawned.get(k).copied().unwrap_or('?');
             let n = self.spawned[..k.min(self.spawned.len())].iter().filter(|c| **c == kind).count();
-            format!("{kind}{n}")
+            // the tick task of fetch 0 is `t0`; later ones are numbered from 1
+            format!("{kind}{}", if kind == 't' { n + 1 } else { n })
         }
     }
 
@@ -587,9 +642,11 @@ impl Live {
                 "res-blocking" => Kind::ResBlocking,
                 "once" => Kind::Once,
                 "once-arc" => Kind::OnceArc,
+                "local" => Kind::Local,
+                "local-arc" => Kind::LocalArc,
                 _ => return BAD.into(),
             };
-            if (kind.is_res() || kind.is_once()) && (w.len() == 6 || *init != "-") {
+            if (kind.is_res() || kind.is_once() || kind.is_local()) && (w.len() == 6 || *init != "-") {
                 return BAD.into();
             }
             let vs: Option<Vec<u32>> = srcs.split(',').map(num).collect();
@@ -620,6 +677,10 @@ impl Live {
         }
         let dv = self.dv.clone().unwrap();
         if self.kind.is_once() && matches!(w.as_slice(), ["set", ..] | ["refetch"] | ["mset", ..] | ["attach", "b"]) {
+            return BAD.into();
+        }
+        // a local resource has no `Write` impl, no `ready()` and no `by_ref()`
+        if self.kind.is_local() && matches!(w.as_slice(), ["mset", ..] | ["attach", "b"] | ["attach", "r"]) {
             return BAD.into();
         }
         let clock = {
@@ -698,7 +759,7 @@ impl Live {
                 if r.len() >= 2 {
                     self.tags.insert("schedule-choice");
                 }
-                if sched::poll_nth_ready(j) == Some(0) && self.first_poll_d.is_none() {
+                if sched::poll_nth_ready(j) == Some(self.d_id()) && self.first_poll_d.is_none() {
                     self.first_poll_d = Some(clock);
                 }
             }
@@ -706,7 +767,9 @@ impl Live {
                 for _ in 0..100_000 {
                     match sched::poll_nth_ready(0) {
                         None => break,
-                        Some(0) if self.first_poll_d.is_none() => self.first_poll_d = Some(clock),
+                        Some(id) if id == self.d_id() && self.first_poll_d.is_none() => {
+                            self.first_poll_d = Some(clock)
+                        }
                         _ => {}
                     }
                 }
@@ -728,6 +791,10 @@ impl Live {
                 self.bread_at.push(clock);
             }
             _ => return BAD.into(),
+        }
+        // tasks spawned by the code under test during this op (the tick tasks of a local resource's fetches)
+        while self.aw_base + self.spawned.len() < sched::task_count() {
+            self.spawned.push('t');
         }
         self.obs()
     }
@@ -988,6 +1055,22 @@ fn gen_resources(g: &mut Gen, thorough: bool) {
             g.case("ql-", &l);
         }
     }
+    // local resources: every fetch waits for its tick task (`t0`, `t1`, ..: extra entries in the ready list)
+    let local: Vec<String> = ["cfg local 0 - none", "cfg local-arc 0 - d", "cfg local 0 - dm", "cfg local-arc 0 - md"]
+        .iter()
+        .map(|s| s.to_string())
+        .collect();
+    let lalpha = ["set", "refetch", "complete last", "attach", "bread", "poll 0", "poll 1", "poll 2"];
+    for len in 1..=3 {
+        gen_exhaustive_cfgs(g, len, &lalpha, &local, &format!("l{len}-"));
+    }
+    let lcore = ["set", "complete last", "poll 0", "poll 1", "poll 2"];
+    gen_exhaustive_cfgs(g, 4, &lcore, &local, "l4-");
+    gen_exhaustive_cfgs(g, 5, &lcore, &local[..2], "l5-");
+    if thorough {
+        gen_exhaustive_cfgs(g, 4, &lalpha, &local, "l4a-");
+        gen_exhaustive_cfgs(g, 6, &lcore, &local[..2], "l6-");
+    }
     // once-resources
     let once: Vec<String> = ["cfg once 3 - none", "cfg once-arc 3 - d", "cfg once 1,2 - dm", "cfg once-arc 2 - md"]
         .iter()
@@ -1011,12 +1094,14 @@ fn gen_random(g: &mut Gen, rng: &mut Rng) {
         _ => "md",
     };
     let via = if rng.chance(2, 5) { "memo" } else { "sig" };
-    let flavour = rng.below(10);
+    let flavour = rng.below(12);
     let once = flavour == 9;
+    let local = flavour >= 10;
     let mut l = vec![match flavour {
         0..=5 => format!("cfg {} {} {} {} {}", rng.pick(&KINDS), srcs.join(","), init, eff, via),
         6..=8 => format!("cfg {} {} - {}", rng.pick(&["res", "res-arc", "res-blocking"]), srcs.join(","), eff),
-        _ => format!("cfg {} {} - {}", rng.pick(&["once", "once-arc"]), srcs.join(","), eff),
+        9 => format!("cfg {} {} - {}", rng.pick(&["once", "once-arc"]), srcs.join(","), eff),
+        _ => format!("cfg {} {} - {}", rng.pick(&["local", "local-arc"]), srcs.join(","), eff),
     }];
     let len = rng.range(3, 30);
     let poll_bias = rng.range(0, 8);
@@ -1027,13 +1112,17 @@ fn gen_random(g: &mut Gen, rng: &mut Rng) {
             0..=3 => l.push(format!("set {} {}", rng.below(k), rng.below(10))),
             4 => l.push("bread".into()),
             5 => l.push("refetch".into()),
+            6 | 7 if local => l.push("complete last".into()),
             6 | 7 => l.push(format!("mset {}", rng.range(50, 59))),
             8..=11 => l.push("complete last".into()),
             12 => l.push(format!("complete {}", rng.below(5))),
             13 | 14 => {
                 if naw < 4 {
                     naw += 1;
-                    l.push(format!("attach {}", if once { rng.pick(&["v", "r"]) } else { rng.pick(&["v", "v", "r", "b"]) }));
+                    l.push(format!(
+                        "attach {}",
+                        if local { "v" } else if once { *rng.pick(&["v", "r"]) } else { *rng.pick(&["v", "v", "r", "b"]) }
+                    ));
                 }
             }
             15 | 16 => l.push("idle".into()),
